@@ -31,7 +31,10 @@ cd /verif
 git -C /repo worktree remove --force $WT
 RES=""
 for c in $CHECKS; do
-  OUT=$(VERIF_SCALE=${VERIF_SCALE:-1} python3 /verif/verif.py selftest $c $DST/patch.diff --tier $TIER 2>&1 | grep -a "SELFTEST\|class=" | cut -c1-400 | (head -2; tail -1))
+  TMPO=/var/tmp/seedv-$ID-$c.out
+  VERIF_SCALE=${VERIF_SCALE:-1} python3 /verif/verif.py selftest $c $DST/patch.diff --tier $TIER > $TMPO 2>&1
+  OUT="$(grep -a "class=" $TMPO | tr -d '\000' | cut -c1-400 | head -2) $(grep -a "^SELFTEST" $TMPO | tail -1)"
+  rm -f $TMPO
   echo "check $c ($TIER): $OUT" >> $LOG
   if echo "$OUT" | grep -q CAUGHT; then RES="$RES $c:caught"; else RES="$RES $c:missed"; fi
 done
